@@ -52,20 +52,22 @@ func uninstallHook() { bs.VerifSetHook(nil) }
 
 // batch is one IngestRows / Flush call made by the harness.
 type batch struct {
-	id       int
-	kind     string // rows | empty | bad | force
-	nrows    int
-	ch       chan error
-	addr     uintptr
-	chanCap  int
-	tCall    time.Time
-	tRet     time.Time
-	ret      error // what IngestRows returned
-	got      []error
-	gotAt    []time.Time
-	mu       sync.Mutex
-	abandon  bool // nobody receives (unbuffered channel)
-	returned bool
+	id          int
+	kind        string // rows | empty | bad | force
+	nrows       int
+	ch          chan error
+	addr        uintptr
+	chanCap     int
+	tCall       time.Time
+	tRet        time.Time
+	ret         error // what IngestRows returned
+	got         []error
+	gotAt       []time.Time
+	mu          sync.Mutex
+	abandon     bool // nobody receives (unbuffered channel)
+	returned    bool
+	lazy        time.Duration // unbuffered channel whose receiver starts late
+	recvStarted bool
 }
 
 func (b *batch) values() []error {
